@@ -1,5 +1,5 @@
 """texts of MANIFEST.json entries (kept apart from the machinery)"""
-CATEGORY = {"C15": "model_checking", "C19": "model_checking"}
+CATEGORY = {"C15": "model_checking"}
 NOTES = "Contract-based deductive verification of the real code: tools/vx copies the functions each property depends on out of /repo/src by span on every run, applies the logged rewrite rules of DESIGN.md section 3, splices in the contracts of spec/*.vs and Verus discharges one obligation set per function. Exit 2 = undecided (never an alarm). Fix commits in /repo: see known_findings.json."
 NA = {
     "C17": "no contract can express that two tasks overlap in time or that one task's progress does not wait on another's: it is a statement about the executor and wall-clock, which rule R1 (.await removed) drops by construction and for which neither Verus nor Kani has a model (DESIGN.md section 7, C17)",
